@@ -126,6 +126,14 @@ CLAIMS = {
             "under its own replica identity. The vector-clock iff direction over real histories and the numeric clock-skew models are not decided.",
             "Trusted: node ids distinct; handlers atomic (checked).",
             "DESIGN.md §5 C18"),
+    "C19": ("CFG path tables over every MessageQueue transition (which containers each path touches), must-order/atomicity of the moves, loop-shape checks of the assignment strategies, context-key schema agreement",
+            "Decides the structural clauses: the queue's containers change only in five transition methods and each path moves a message between exactly two accounting places in one step; "
+            "poll takes the left end of a queue publish appends to on the right; the redelivery limit is compared complementarily at both sites; an id no longer stored is never delivered; "
+            "Topic.publish snapshots subscribers before suspending and emits one event per snapshot entry; record offset = high watermark then increment, by _do_append only; retention keeps order; "
+            "commits are max(old,new); rebalance replaces the whole table from sorted current members; each strategy places each partition once; convenience generators and handlers agree on context keys. "
+            "End-to-end at-least-once and StickyAssignment's induction over calls are not decided.",
+            "Trusted: message ids unique; handlers atomic (checked).",
+            "DESIGN.md §5 C19"),
 }
 
 NOT_YET = "rule pack not built yet in this session (see DESIGN.md §11); no check is claimed for it"
